@@ -276,7 +276,7 @@ class C19(Sim):
     PROBES = ["radius<1", "radius>1", "grid_nonperfect_power", "grid_perfect_power", "box_dim>=4", "point_cloud_return",
               "normals_requested", "single_edge_polyline", "single_face_surface", "multi_component_polyline", "n1!=n2", "n1==n2",
               "chi2_test_run", "chi2_polyline", "chi2_surface", "t_out_of_range", "t_endpoint", "degree0", "patch_nonsquare_net",
-              "shared_stream_run", "large_centre", "measured_then_deformed", "integer_control_net"]
+              "shared_stream_run", "large_centre", "measured_then_deformed", "integer_control_net", "zero_area_face"]
     QUICK_RUNS = 3000
     THOROUGH_RUNS = 300000
     BLOCK = 20
@@ -337,7 +337,14 @@ class C19(Sim):
                 world["polylines"].append(pl)
                 chi2 = {"kind": "polyline", "w": len(world["polylines"]) - 1}
             else:
-                world["surfaces"].append(gen_heightfield(wr.fork("chi-sf"), rng.randint(2, 5), rng.randint(1, 4)))
+                sf = gen_heightfield(wr.fork("chi-sf"), rng.randint(2, 5), rng.randint(1, 4))
+                if rng.chance(0.4):
+                    # a zero-area face (a vertex listed twice) somewhere in the face list: it must never receive a sample and must not
+                    # disturb the shares of the others.  (Normals are not requested on this surface: a zero-area face has none.)
+                    f0 = sf["faces"][rng.below(len(sf["faces"]))]
+                    sf["faces"].insert(rng.below(len(sf["faces"]) + 1), [f0[0], f0[0], f0[1]])
+                    sf["degenerate"] = True
+                world["surfaces"].append(sf)
                 chi2 = {"kind": "surface", "w": len(world["surfaces"]) - 1}
             chi2["target"] = rng.randint(CHI2_MIN_DRAWS, 7000)
             clients.append("sharer")
@@ -400,6 +407,8 @@ class C19(Sim):
             with np.errstate(all="ignore"):
                 self.tris.append(RefTriangles(sf["points"], sf["faces"]))
         self.boxes = [M.geometry.AABB(list(b["mini"]), list(b["maxi"])) for b in w["boxes"]]
+        if any(sf.get("degenerate") for sf in w["surfaces"]):
+            self.probes["zero_area_face"] += 1
         if any(c.get("int") for c in w["curves"] + w["patches"]):
             self.probes["integer_control_net"] += 1
         self.curves = [M.splines.BezierCurve([list(p) for p in c["P"]]) for c in w["curves"]]
@@ -462,7 +471,8 @@ class C19(Sim):
             return {"c": c, "op": op, "box": b, "n": n, "mode": mode, "pc": d <= 3 and r.chance(0.25)}
         if op == "polyline":
             return {"c": c, "op": op, "w": r.below(len(w["polylines"])), "n": n, "pc": r.chance(0.25)}
-        return {"c": c, "op": "surface", "w": r.below(len(w["surfaces"])), "n": n, "pc": r.chance(0.35), "normals": r.chance(0.5)}
+        wi = r.below(len(w["surfaces"]))
+        return {"c": c, "op": "surface", "w": wi, "n": n, "pc": r.chance(0.35), "normals": r.chance(0.5) and not w["surfaces"][wi].get("degenerate")}
 
     def _param(self, r):
         k = r.wchoice(["unif", "end", "near"], [6, 2, 2])
@@ -531,7 +541,8 @@ class C19(Sim):
                 return None
             if ch["kind"] == "polyline":
                 return {"c": c, "op": "polyline", "w": ch["w"], "n": n, "pc": r.chance(0.15)}
-            return {"c": c, "op": "surface", "w": ch["w"], "n": n, "pc": r.chance(0.15), "normals": r.chance(0.3)}
+            return {"c": c, "op": "surface", "w": ch["w"], "n": n, "pc": r.chance(0.15),
+                    "normals": r.chance(0.3) and not self.cfg["world"]["surfaces"][ch["w"]].get("degenerate")}
         if c.startswith("sampler"):
             return self._sampler_event(c, r)
         if c == "bezier":
